@@ -15,7 +15,31 @@ import (
 
 var c12Cache = map[string]orb.Simplifier{}
 
+// one long-lived simplifier value per algorithm whose exported fields are set before each use (half of the calls):
+// the fields, not what they were when the value was made, say what the simplifier does
+var (
+	c12DP  = simplify.DouglasPeucker(123)
+	c12Rad = simplify.Radial(planar.Distance, 123)
+	c12Vis = simplify.Visvalingam(123, 9)
+	c12N   int
+)
+
 func c12Simp(alg string, a int, keep int) orb.Simplifier {
+	c12N++
+	if c12N%2 == 0 {
+		t := float64(a) / 4
+		switch alg {
+		case "dp":
+			c12DP.Threshold = t
+			return c12DP
+		case "radial":
+			c12Rad.Threshold = t
+			return c12Rad
+		case "vis":
+			c12Vis.Threshold, c12Vis.ToKeep = t, keep
+			return c12Vis
+		}
+	}
 	key := fmt.Sprintf("%s/%d/%d", alg, a, keep)
 	if s, ok := c12Cache[key]; ok {
 		return s
